@@ -73,7 +73,7 @@ def format_family(tier, rng):
     for name, src in vals:
         for rep in REPRS:
             for prec in PRECS:
-                for w in ("", "0", "5", "12"):
+                for w in (("", "5", "12") if tier == "quick" else ("", "0", "5", "12")):
                     if rep == "" and prec == "":
                         continue
                     out.append((f"format:{name}:{w}{prec}{rep}", value_script(src, [f"{w}{prec}{rep}"])))
@@ -265,8 +265,8 @@ def limit_family(tier):
         ns = list(range(1, 20)) + list(range(100, 140)) + list(range(236, 270)) + list(range(500, 520)) + [1000, 1023, 1024, 1025]
     for n in ns:
         for fam in FAMILIES:
-            if tier == "quick" and n > 300 and fam in (fam_nesting, fam_nested_calls):
-                continue            # very deep nesting: slow to parse, thorough tier only
+            if tier == "quick" and fam in (fam_nesting, fam_nested_calls) and n not in (123, 129, 253, 254, 255, 256, 257):
+                continue            # deep nesting is slow to parse: a few depths here, all in the thorough tier
             for name, src in fam(n):
                 out.append((f"limit:{name}:{n}", src))
     # u16: number of elements / constants
@@ -295,7 +295,7 @@ def calibrated_jump_programs(bytes_per_stmt, tier):
     for filler, bps in bytes_per_stmt.items():
         if bps <= 0:
             continue
-        for limit in (256, 65536):
+        for limit in ((256,) if tier == "quick" else (256, 65536)):     # 2^16-byte bodies are slow: thorough only
             centre = int(limit / bps)
             width = (4 if limit == 256 else 2) if tier == "quick" else 12
             for n in range(max(1, centre - width), centre + width + 1):
